@@ -150,7 +150,7 @@ fn exec_pure(op: &str) -> String {
 mod sock {
     use super::*;
     use futures::{SinkExt, StreamExt};
-    use ratchet::{Message, NoExt, Role, WebSocket, WebSocketConfig};
+    use ratchet::{NoExt, Role, WebSocket, WebSocketConfig};
     use std::collections::{HashMap, HashSet};
     use std::num::NonZeroUsize;
     use std::sync::{Arc, Mutex};
@@ -231,7 +231,7 @@ mod sock {
         ev_rx: mpsc::UnboundedReceiver<Ev>,
         attach_tx: mpsc::Sender<AttachClient>,
         stop_tx: Option<trigger::Sender>,
-        peer_tx: ratchet::Sender<tokio::io::DuplexStream, <NoExt as ratchet::SplittableExtension>::SplitEncoder>,
+        peer_tx: tokio::io::WriteHalf<tokio::io::DuplexStream>, // the peer speaks raw RFC 6455 frames
         resolvable: Arc<Mutex<HashSet<String>>>,
         agents: Arc<Mutex<Vec<AgentEnd>>>,
         dls: HashMap<u64, DlEnd>,
@@ -249,8 +249,8 @@ mod sock {
             let (server, client) = tokio::io::duplex(BUF);
             let config = WebSocketConfig::default();
             let server = WebSocket::from_upgraded(config, server, Some(NoExt), BytesMut::new(), Role::Server);
-            let client = WebSocket::from_upgraded(config, client, Some(NoExt), BytesMut::new(), Role::Client);
-            let (peer_tx, mut peer_rx) = client.split().expect("split");
+            // the peer is hand-made (raw frames), so that it can fragment messages and interleave control frames
+            let (mut peer_rx, peer_tx) = tokio::io::split(client);
             let (ev_tx, ev_rx) = mpsc::unbounded_channel();
 
             let remote = RemoteTask::new(
@@ -264,31 +264,58 @@ mod sock {
             );
             let task = tokio::spawn(remote.run());
 
-            // peer reader
+            // peer reader: parses the (unmasked) frames the server writes
             let tx = ev_tx.clone();
             let peer_task = tokio::spawn(async move {
-                let mut buf = BytesMut::new();
+                use tokio::io::AsyncReadExt;
                 loop {
-                    buf.clear();
-                    match peer_rx.read(&mut buf).await {
-                        Ok(Message::Text) => {
-                            let _ = tx.send(Ev::Peer(hex(buf.as_ref())));
+                    let mut h = [0u8; 2];
+                    if peer_rx.read_exact(&mut h).await.is_err() {
+                        let _ = tx.send(Ev::Peer("gone".into()));
+                        break;
+                    }
+                    let (fin, opcode, masked) = (h[0] & 0x80 != 0, h[0] & 0x0f, h[1] & 0x80 != 0);
+                    let mut len = (h[1] & 0x7f) as u64;
+                    if len == 126 {
+                        let mut b = [0u8; 2];
+                        if peer_rx.read_exact(&mut b).await.is_err() { break; }
+                        len = u16::from_be_bytes(b) as u64;
+                    } else if len == 127 {
+                        let mut b = [0u8; 8];
+                        if peer_rx.read_exact(&mut b).await.is_err() { break; }
+                        len = u64::from_be_bytes(b);
+                    }
+                    let mut key = [0u8; 4];
+                    if masked && peer_rx.read_exact(&mut key).await.is_err() { break; }
+                    let mut payload = vec![0u8; len as usize];
+                    if peer_rx.read_exact(&mut payload).await.is_err() {
+                        let _ = tx.send(Ev::Peer("gone".into()));
+                        break;
+                    }
+                    if masked {
+                        for (i, b) in payload.iter_mut().enumerate() { *b ^= key[i % 4]; }
+                    }
+                    match opcode {
+                        1 if fin => {
+                            let _ = tx.send(Ev::Peer(hex(&payload)));
                         }
-                        Ok(Message::Close(reason)) => {
-                            let code = match reason {
-                                Some(r) => format!("{:?}", r.code).to_lowercase(),
-                                None => "none".to_string(),
+                        8 => {
+                            let code = if payload.len() >= 2 {
+                                match u16::from_be_bytes([payload[0], payload[1]]) {
+                                    1000 => "normal".to_string(),
+                                    1001 => "goingaway".to_string(),
+                                    1002 => "protocol".to_string(),
+                                    c => format!("{}", c),
+                                }
+                            } else {
+                                "none".to_string()
                             };
                             let _ = tx.send(Ev::Peer(format!("close:{}", code)));
                             break;
                         }
-                        Ok(Message::Binary) => {
-                            let _ = tx.send(Ev::Peer("binary".into()));
-                        }
-                        Ok(_) => {}
-                        Err(_) => {
-                            let _ = tx.send(Ev::Peer("gone".into()));
-                            break;
+                        9 | 10 => {} // ping / pong from the server
+                        _ => {
+                            let _ = tx.send(Ev::Peer(format!("frame:{}:{}", opcode, fin)));
                         }
                     }
                 }
@@ -462,6 +489,22 @@ mod sock {
             }
         }
 
+        /// One raw client frame (masked with the all-zero key, which leaves the payload as it is).
+        async fn write_frame(&mut self, fin: bool, opcode: u8, payload: &[u8]) {
+            use tokio::io::AsyncWriteExt;
+            let mut f = vec![(if fin { 0x80 } else { 0 }) | opcode];
+            if payload.len() < 126 {
+                f.push(0x80 | payload.len() as u8);
+            } else {
+                f.push(0x80 | 126);
+                f.extend_from_slice(&(payload.len() as u16).to_be_bytes());
+            }
+            f.extend_from_slice(&[0, 0, 0, 0]);
+            f.extend_from_slice(payload);
+            let _ = self.peer_tx.write_all(&f).await;
+            let _ = self.peer_tx.flush().await;
+        }
+
         pub async fn exec(&mut self, op: &str) -> String {
             let parts: Vec<&str> = op.split_whitespace().collect();
             let s = |h: &str| unhex(h).and_then(|b| String::from_utf8(b).ok());
@@ -560,7 +603,50 @@ mod sock {
                 }
                 ["in", f] => {
                     let Some(frame) = s(f) else { return "bad-op".into() };
-                    let _ = self.peer_tx.write_text(frame).await;
+                    self.write_frame(true, 1, frame.as_bytes()).await;
+                    self.settle(None).await
+                }
+                ["infrag", f, plan] => {
+                    // one text message in fragments; `plan` = comma list: a number n = the next fragment carries n bytes,
+                    // p / q = a ping / pong control frame, b = a binary frame, t = a new text frame, c = a close frame
+                    // at this point; the rest of the payload goes into the final fragment
+                    let Some(bytes) = unhex(f) else { return "bad-op".into() };
+                    let mut pos = 0usize;
+                    let mut first = true;
+                    let mut aborted = false;
+                    for tok in plan.split(',') {
+                        match tok {
+                            "p" => self.write_frame(true, 9, b"k").await,
+                            "q" => self.write_frame(true, 10, b"").await,
+                            "b" => self.write_frame(true, 2, b"\x01\x02").await,
+                            "t" => self.write_frame(true, 1, b"@event(node:x,lane:y)").await,
+                            "c" => {
+                                self.write_frame(true, 8, &1000u16.to_be_bytes()).await;
+                                aborted = true;
+                                break;
+                            }
+                            "-" | "" => {}
+                            n => {
+                                let n: usize = n.parse().unwrap_or(0);
+                                let end = (pos + n).min(bytes.len());
+                                self.write_frame(false, if first { 1 } else { 0 }, &bytes[pos..end]).await;
+                                first = false;
+                                pos = end;
+                            }
+                        }
+                    }
+                    if !aborted {
+                        self.write_frame(true, if first { 1 } else { 0 }, &bytes[pos..]).await;
+                    }
+                    self.settle(None).await
+                }
+                ["inbin", f] => {
+                    let Some(bytes) = unhex(f) else { return "bad-op".into() };
+                    self.write_frame(true, 2, &bytes).await;
+                    self.settle(None).await
+                }
+                ["inclose"] => {
+                    self.write_frame(true, 8, &1000u16.to_be_bytes()).await;
                     self.settle(None).await
                 }
                 ["send", src, kind, n, l, b] => {
@@ -1201,14 +1287,52 @@ fn gen_route_ops(rng: &mut Rng) -> Vec<String> {
                 ops.push(format!("agents {}", resolvable.iter().map(|n| hs(n)).collect::<Vec<_>>().join(" ")).trim().to_string());
             }
             98 => ops.push("stop".into()),
+            99 => ops.push((*rng.pick(&["inbin 0102", "inclose", "inbin -"])).to_string()),
             _ => {}
         }
     }
+    // a third of the peer's envelopes travel as fragmented messages with control frames in between
+    let ops: Vec<String> = ops
+        .into_iter()
+        .map(|op| match op.strip_prefix("in ") {
+            Some(f) if rng.chance(1, 3) => fragment_op(rng, f),
+            _ => op,
+        })
+        .collect();
     ops
 }
 
+/// Send the same envelope as a fragmented text message: 1-3 cuts anywhere (also inside the header and inside
+/// multi-byte characters), ping/pong control frames before, between and after the fragments; rarely a negative case.
+fn fragment_op(rng: &mut Rng, frame_hex: &str) -> String {
+    let len = if frame_hex == "-" { 0 } else { frame_hex.len() / 2 };
+    let mut toks: Vec<String> = vec![];
+    let mut ctl = |rng: &mut Rng, toks: &mut Vec<String>| {
+        for _ in 0..rng.below(3) {
+            toks.push(if rng.chance(2, 3) { "p".into() } else { "q".into() });
+        }
+    };
+    if rng.chance(1, 4) {
+        ctl(rng, &mut toks);
+    }
+    let cuts = rng.range(1, 3);
+    let mut left = len as u64;
+    for _ in 0..cuts {
+        let n = if left == 0 { 0 } else { rng.below(left + 1) };
+        toks.push(format!("{}", n));
+        left -= n;
+        if rng.chance(3, 4) {
+            ctl(rng, &mut toks);
+        }
+        if rng.chance(1, 60) {
+            toks.push((*rng.pick(&["b", "t", "c"])).to_string());
+        }
+    }
+    format!("infrag {} {}", frame_hex, toks.join(","))
+}
+
 fn is_route_op(op: &str) -> bool {
-    matches!(op.split_whitespace().next(), Some("agents" | "attach" | "attach1" | "in" | "send" | "burst" | "detach" | "stop"))
+    matches!(op.split_whitespace().next(), Some("agents" | "attach" | "attach1" | "in" | "infrag" | "inbin" | "inclose" | "send" | "burst" | "detach" | "stop"))
 }
 
 fn gen_pure_case(rng: &mut Rng, t: &mut Trace) {
